@@ -13,7 +13,7 @@ from fractions import Fraction
 
 import numpy as np
 
-from harness import curves, numeric, par
+from harness import curves, numeric, par, tlc
 
 
 def _ints(a):
@@ -174,14 +174,14 @@ def _report(ctx, seen, key, clause, case, detail, limit=2):
 
 
 def run(ctx):
-    grids = "n-1 = 8" if ctx.quick else "n-1 in {8, 16}"
-    ctx.rule = ("G: unit-spaced curves with %s, heights 0..4 (12 fixed profiles per 8-grid%s), every reduction with <= 5 "
-                "retained points x every subset of knee positions (add_points_even) and every knee set of 1..4 original "
-                "indices (add_points_even_knees), tx in {1/16,1/8,1/4} x ty in {1/8,1/4,1/2} x extremes in {False, True}; "
-                "the enumerated space is exhaustive relative to the listed height profiles.  "
-                "T: random / MRC-like / bundled-trace curves, random reductions, knees and thresholds.  "
-                "non-trivial: at least one candidate segment, or the height filter drops an index"
-                % (grids, "" if ctx.quick else "; 6 profiles on the 16-grid with <= 4 retained points; all 140 monotone unit staircases"))
+    ctx.rule = ("G: unit-spaced curves with n-1 = 8, heights 0..4 (12 fixed profiles: staircases, plateaus, tent, zigzag, "
+                "noisy, increasing), every reduction with <= 5 retained points x every subset of knee positions "
+                "(add_points_even) and every knee set of 1..4 original indices (add_points_even_knees), "
+                "tx in {1/16,1/8,1/4} x ty in {1/8,1/4,1/2} x extremes in {False, True}%s; the enumerated space is exhaustive "
+                "relative to the listed height profiles.  T: random / MRC-like / bundled-trace curves, random reductions, "
+                "knees and thresholds.  non-trivial: at least one candidate segment, or the height filter drops an index"
+                % ("" if ctx.quick else "; thorough adds n-1 = 16 (6 profiles, <= 4 retained points, <= 3 marker knees) and all "
+                                        "140 monotone unit staircases on the 8-grid (<= 3 retained points, <= 2 marker knees)"))
     ctx.assumptions += [
         "G domain: dyadic grids - |dx|/range, 2*tx and their quotient are exact in binary64; |dy|/range is one correctly "
         "rounded division of small integers compared with a dyadic ty, which decides like the rational",
@@ -195,6 +195,9 @@ def run(ctx):
                   workers=16, timeout=3000)
     beh.sort(key=lambda b: (b["case"]["kind"], b["case"]["pts"], b["case"].get("reduced", b["case"].get("knees")),
                             b["case"].get("kpos", [])))
+    if 3 * len(beh) != ctx.tlc_runs[-1]["distinct_states"]:      # 16 workers print concurrently: nothing may be lost
+        raise tlc.TLCFailure("generator output incomplete: %d cases parsed, TLC found %d states"
+                             % (len(beh), ctx.tlc_runs[-1]["distinct_states"]))
     ctx.exhaustive = True
     res = par.pmap(_replay_line, beh)
     seen = {}
